@@ -247,19 +247,26 @@ def stale_commit(ctx, job):
         tag = un(un(t).f[e.src.structs['MigrationTaskMeta'].index('slot_range')].v).f[1].v
         real_ep = un(tag.f[0].v).f[names.index('epoch')].v
         stale = z3.BitVec('stale_epoch', 64); e.assume(stale != bv(real_ep))
+        b.mark_initial()
         before = clone(b.mstore())
         view_before = b.view_cluster(0)
         r1 = b.call('commit_migration', with_epoch(t, stale), False)
         same = veq(b.view_cluster(0), view_before)
         g0 = b.fld(before, 'MetaStore', 'global_epoch').v; g1 = b.fld(b.mstore(), 'MetaStore', 'global_epoch').v
         def wit(m): return {'task_epoch': concretize(real_ep, m), 'stale_epoch': concretize(stale, m), 'result_of_stale_commit': 'accepted' if r1.variant == 0 else 'refused'}
-        items = [('commit-with-other-epoch-refused', 'C07/stale-commit-accepted', r1.variant == 1, wit),
-                 ('refused-commit-changes-nothing', 'C07/refused-commit-changed-state', zand([same, bv(g0) == bv(g1)]), wit)]
+        items = [('commit-with-other-epoch-refused', 'C07/stale-commit-accepted', r1.variant == 1, wit)]
+        if r1.variant == 1:
+            items.append(('refused-commit-changes-nothing', 'C07/refused-commit-changed-state', zand([same, bv(g0) == bv(g1)]), wit))
         r2 = b.call('commit_migration', clone(t), False)
         items.append(('live-migration-commits-once', 'C07/live-migration-commit-refused', r2.variant == 0, wit))
         r3 = b.call('commit_migration', clone(t), False)
         items.append(('second-commit-refused', 'C07/second-commit-accepted', r3.variant == 1, wit))
-        ctx.require_all(e, items)
+        def rp(m):
+            sp = b.replay_spec(m, ['unchanged-on-error', 'partition'], [0])
+            exps = [('Err', 'C07/stale-commit-accepted'), ('Ok', 'C07/live-migration-commit-refused'), ('Err', 'C07/second-commit-accepted')]
+            for op, (ex, key) in zip(sp['spec']['ops'], exps): op['expect'] = ex; op['violation_key'] = key
+            return sp
+        ctx.require_all(e, items, replay=rp)
         return 3
     res = ctx.explore('stale / duplicate commit, %d chunk(s)' % job['chunks'], run)
     ctx.ops += sum(p.value or 0 for p in res if p.kind == 'ok')
